@@ -245,6 +245,15 @@ def run(ctx):
                                                       for sent in batch)
                     # the text of `json.dumps(…, indent=4)` itself, character by character (Print/Json.lean)
                     cases.append(('json_text', f'json_text {enc_k}', 'ok ' + enc_str(out) if out is not None else err, desc))
+                    if out is not None:
+                        # the reader written in Lean (Read/Json.lean, theorem `json_text_decode`) on the real text,
+                        # against CPython's own `json.loads`
+                        loaded = json.loads(out)
+                        want_read = f'ok {len(loaded)}' + ''.join(
+                            f' || {key} {len(entries)}' + ''.join(
+                                ' ' + kscore(e['log_prob']) + ' ' + enc_json({k: v for k, v in e.items() if k != 'log_prob'}) for e in entries)
+                            for key, entries in loaded.items())
+                        cases.append(('json_read', 'json_read ' + enc_str(out), want_read, desc))
             elif f == 'html':
                 enc_html = f'{len(batch)} ' + ' '.join(f'{len(sent)} ' + ' '.join(enc_str(f'{st.score:.5e}') + ' ' + T.enc_tree(st.tree) for st in sent)
                                                      for sent in batch)
